@@ -1,5 +1,6 @@
 """P1..P7: stereo pairing, transcoding, export walk (C01, C03, C04, C05, C12)."""
 import ast
+import re
 import copy
 
 from ..core.loader import AnalysisError, dotted, norm, own_nodes, where, full
@@ -410,7 +411,7 @@ def rule_P4(ctx):
     dtree = ctx.prog.module(DSM).tree
     got = {}
     for bo in ("big", "little"):
-        mi = Mini(ctx, DSM, env={"sys.byteorder": bo, "byteorder": bo})
+        mi = Mini(ctx, ctx.prog.module(DSM), env={"sys.byteorder": bo, "byteorder": bo})
         mi.run([st for st in dtree.body if isinstance(st, (ast.Assign, ast.AnnAssign, ast.If))])
         got[bo] = mi.env.get("system_byte_order")
     if "system_byte_order" not in {n.id for st in dtree.body for n in ast.walk(st) if isinstance(n, ast.Name) and isinstance(n.ctx, ast.Store)}:
@@ -798,11 +799,20 @@ def rule_P6(ctx):
     ctx.ob("P6", pc, "every channel is kept, in order", ok, detall, inst="pad-all")
     # dtype table
     dt = ctx.fn("smpl_extract/data_streams.py", "StreamEncoding.dtype", "P6")
-    dicts = [d for d in own_nodes(dt) if isinstance(d, ast.Dict)]
-    got = sorted((norm(k), norm(v)) for d in dicts for k, v in zip(d.keys, d.values))
-    want = sorted([("1", "np.dtype('int8')"), ("2", "np.dtype('int16')"), ("4", "np.dtype('int32')"), ("8", "np.dtype('int64')"),
-                   ("1", "np.dtype('uint8')"), ("2", "np.dtype('uint16')"), ("4", "np.dtype('uint32')"), ("8", "np.dtype('uint64')")])
-    ctx.ob("P6", dt, "sample width -> numpy type table (1/2/4/8 bytes, signed and unsigned)", got == want, f"{got}", inst="dtype-table")
+    # interpreted for every (signedness, width) of the table (no code is run): np.dtype("int16") and np.dtype(np.int16) are the same type
+    from .sem import Mini, Sym
+    body = [st for st in dt.body if not (isinstance(st, ast.Expr) and isinstance(st.value, ast.Constant))]
+    got = {}
+    for signed in (True, False):
+        for wd in (1, 2, 4, 8):
+            mi = Mini(ctx, dt._module, env={"self.is_signed": signed, "self.sample_width": wd})
+            mi.run(body)
+            r = mi.env.get("<return>")
+            m_ = re.fullmatch(r"np\.dtype\((?:'(\w+)'|np\.(\w+))\)", str(r)) if isinstance(r, Sym) else None
+            got[(signed, wd)] = (m_.group(1) or m_.group(2)) if m_ else str(r)
+    want = {(sg, wd): f"{'' if sg else 'u'}int{8 * wd}" for sg in (True, False) for wd in (1, 2, 4, 8)}
+    ctx.ob("P6", dt, "sample width -> numpy type table (1/2/4/8 bytes, signed and unsigned)", got == want,
+           f"{ {k: v for k, v in got.items() if want[k] != v} }", inst="dtype-table")
 
 
 def _frame_major(e):
